@@ -121,6 +121,8 @@ type Summary struct {
 	Kinds       map[string]int `json:"kinds"`
 	Samples     []string       `json:"samples"`
 	Failures    []Failure      `json:"failures"`
+	FailCount   int            `json:"failure_count"`
+	FailClasses map[string]int `json:"failure_classes"`
 	Crashes     int            `json:"crashes"`
 	Corpus      int            `json:"corpus_cases"`
 	WallS       float64        `json:"wall_s"`
@@ -310,6 +312,7 @@ func Main(p Prop) {
 	impl := bufio.NewWriter(implF)
 	sum := Summary{ID: p.ID, Tier: *tier, Seed: *seed, Rule: p.Rule, Kinds: map[string]int{}, Corpus: ncorpus}
 	keys := map[string]struct{}{}
+	perClass := map[string]int{}
 	var ch *child
 	for i, line := range lines {
 		if strings.ContainsAny(line, "\n\r") {
@@ -335,7 +338,10 @@ func Main(p Prop) {
 			sum.Kinds[res.Kind]++
 		}
 		if res.Fail != "" {
-			if len(sum.Failures) < 200 {
+			sum.FailCount++
+			perClass[res.Class]++
+			// cap per class, so that a frequent (possibly known) class cannot crowd out a new one
+			if perClass[res.Class] <= 25 && len(sum.Failures) < 2000 {
 				sum.Failures = append(sum.Failures, Failure{Index: i, Line: line, Class: res.Class, Fail: res.Fail})
 			}
 		}
@@ -354,11 +360,12 @@ func Main(p Prop) {
 	opsF.Close()
 	implF.Close()
 	sum.Distinct = len(keys)
+	sum.FailClasses = perClass
 	sum.WallS = time.Since(start).Seconds()
 	b, _ := json.MarshalIndent(sum, "", " ")
 	os.WriteFile(filepath.Join(*outDir, "summary.json"), b, 0o644)
 	fmt.Printf("hx %s: %d cases (%d corpus), %d distinct non-trivial, %d predicate failures, %d crashes, %.1fs\n",
-		p.ID, sum.Evaluations, ncorpus, sum.Distinct, len(sum.Failures), sum.Crashes, sum.WallS)
+		p.ID, sum.Evaluations, ncorpus, sum.Distinct, sum.FailCount, sum.Crashes, sum.WallS)
 }
 
 func trunc(s string, n int) string {
